@@ -48,25 +48,47 @@ def run(ctx, R):
     nz = normform.Normalizer(None, lambda e: None, inline=False)
     want_guard = nz.cmp(ast.parse('self._limit < len(%s)' % P,
                                   mode='eval').body)
-    n = 0
-    for a in assigns:
-        n += 1
-        v = a.value
-        kind = None
+    def defs_of(name):
+        return [x for x in own_nodes(f.node) if isinstance(x, ast.Assign)
+                and any(isinstance(t, ast.Name) and t.id == name
+                        for t in x.targets)]
+
+    def kind_of(v, depth=0):
+        """'slice' / 'sample' when v is P[:self._limit] or
+        random.sample(P, self._limit), possibly through local aliases."""
         if isinstance(v, ast.Subscript) and src(v.value) == P and isinstance(
                 v.slice, ast.Slice) and v.slice.lower is None and \
                 v.slice.step is None and v.slice.upper is not None and src(
                     v.slice.upper) == 'self._limit':
-            kind = 'slice'
-        elif isinstance(v, ast.Call) and prog.dotted(
+            return 'slice'
+        if isinstance(v, ast.Call) and prog.dotted(
                 f.module, v.func, f) == 'random.sample' and len(
                     v.args) == 2 and src(v.args[0]) == P and src(
                         v.args[1]) == 'self._limit' and not v.keywords:
-            kind = 'sample'
+            return 'sample'
+        if isinstance(v, ast.Name) and v.id != P and depth < 3:
+            ks = {kind_of(d.value, depth + 1) for d in defs_of(v.id)}
+            if ks and None not in ks:
+                return '+'.join(sorted(ks))
+        return None
+
+    # assignments that produce the limited list: to P or to a local alias
+    # that is later stored into P
+    aliases = {a.value.id for a in assigns if isinstance(a.value, ast.Name)}
+    producing = [a for a in assigns if not isinstance(a.value, ast.Name)]
+    for al in sorted(aliases):
+        producing += defs_of(al)
+    n = 0
+    for a in assigns:
+        n += 1
+        v = a.value
+        kind = kind_of(v)
         R.ob('R20.1', 'assign@%s' % src(v)[:40], kind is not None,
              'the request list is only replaced by %s[:self._limit] or '
              'random.sample(%s, self._limit)' % (P, P), src(v), func=f,
              node=a)
+    for a in producing:
+        v = a.value
         ifs = C.guarding_ifs(a, f.node)
         okg = False
         for i, br in ifs:
@@ -80,7 +102,7 @@ def run(ctx, R):
         R.ob('R20.1', 'guard@%s' % src(v)[:40], okg,
              'limiting happens only when self._limit and self._limit < '
              'len(%s)' % P, [src(i.test) for i, _b in ifs], func=f, node=a)
-    R.count('R20.1', n, 2)
+    R.count('R20.1', n, 1)
     # other operations on P
     bad = []
     for c in own_nodes(f.node):
@@ -123,9 +145,13 @@ def run(ctx, R):
                 continue
             n2 += 1
             ifs = C.guarding_ifs(C.stmt_of(c), h.node)
-            ok = any(br == 'body' and src(i.test).endswith(
-                'config.placement.randomize_allocation_candidates')
-                for i, br in ifs)
+            def _is_flag(t):
+                if isinstance(t, ast.Name):
+                    d = c05.single_def(h, t.id)
+                    t = d.value if d is not None else t
+                return src(t).endswith(
+                    'config.placement.randomize_allocation_candidates')
+            ok = any(br == 'body' and _is_flag(i.test) for i, br in ifs)
             R.ob('R20.2', '%s:%s' % (h.qbase, d), ok,
                  'random.* is called only under '
                  'config.placement.randomize_allocation_candidates',
@@ -190,7 +216,8 @@ def run(ctx, R):
     if len(kept) == 1 and isinstance(kept[0].value, ast.Name):
         kname = kept[0].value.id
         loops = [x for x in own_nodes(f.node) if isinstance(x, ast.For)]
-        root_loops = [x for x in loops if src(x.iter) == P]
+        root_loops = [x for x in loops if src(x.iter) == P or src(
+            x.iter) in aliases]
         sum_loops = [x for x in loops if src(x.iter) == S]
         why = 'loops over requests=%d summaries=%d' % (len(root_loops),
                                                        len(sum_loops))
@@ -211,7 +238,32 @@ def run(ctx, R):
             rootset = src(adds[0].func.value) if adds else None
             # the root loop sees the limited list
             rifs = C.guarding_ifs(rl, f.node)
-            okdom = bool(rifs) and g.must_pass(rifs[0][0], rl, set(assigns))
+            okdom = bool(rifs) and g.must_pass(rifs[0][0], rl,
+                                               set(producing))
+            # ... and that very list is what is returned: after the loop
+            # nothing rebinds the list it walked, and the returned name is
+            # it (directly, or by a plain copy of the alias)
+            L = src(rl.iter)
+            after = g.reachable_from([rl]) - set(own_nodes_of(rl))
+            for x in after:
+                if not isinstance(x, ast.Assign):
+                    continue
+                for t in x.targets:
+                    if isinstance(t, ast.Name) and t.id == L and not (
+                            L == P and False):
+                        okdom = False
+                        why_extra = 'line %d rebinds %s after the roots ' \
+                            'were collected' % (x.lineno, L)
+                    if isinstance(t, ast.Name) and t.id == P and L != P \
+                            and src(x.value) != L:
+                        okdom = False
+            if L != P:
+                copies = [x for x in after if isinstance(x, ast.Assign)
+                          and any(isinstance(t, ast.Name) and t.id == P
+                                  for t in x.targets)
+                          and src(x.value) == L]
+                okdom = okdom and bool(copies) and g.must_pass(
+                    rl, cfgmod.EXIT, set(copies), normal_only=True)
             apps = [c for c in own_nodes_of(sl) if isinstance(c, ast.Call)
                     and isinstance(c.func, ast.Attribute)
                     and c.func.attr == 'append'
